@@ -43,6 +43,7 @@ type c10Case struct {
 	Stall    bool   `json:"maintenance_stalled_until_queue_full"`
 	CloseAt  int    `json:"close_after_ops"`
 	WaitToo  bool   `json:"a_client_calls_wait_concurrently"`
+	DelHeavy bool   `json:"writers_alternate_set_and_delete_of_resident_keys"`
 }
 
 func maxGoroutineID() int64 {
@@ -111,6 +112,15 @@ func c10Scenario(r *Run, idx int, cs c10Case) {
 				default:
 				}
 				k := w<<16 | wr.Intn(4096)
+				if cs.DelHeavy {
+					// every Delete hits a key this writer has just stored, so it sends its own event: the
+					// callers parked on a full queue then include the Delete paths (plain and hybrid)
+					a.set(k, int64(i), 1, 0)
+					_ = a.del(k)
+					ops.Add(2)
+					wops.Add(2)
+					continue
+				}
 				switch wr.Intn(10) {
 				case 0:
 					_ = a.del(k)
@@ -335,8 +345,120 @@ func c10Scenario(r *Run, idx int, cs c10Case) {
 		}
 		return ">32"
 	}
-	r.Distinct(fmt.Sprintf("%s/w%s/r%s/stall=%v/wait=%v", cs.Kind, bucket(cs.Writers), bucket(cs.Readers), cs.Stall, cs.WaitToo))
+	r.Distinct(fmt.Sprintf("%s/w%s/r%s/stall=%v/wait=%v/del=%v", cs.Kind, bucket(cs.Writers), bucket(cs.Readers), cs.Stall, cs.WaitToo, cs.DelHeavy))
 	r.Sample(8, map[string]any{"case": cs, "ops_completed": ops.Load(), "close_returned": closeReturned, "all_calls_returned": terminated})
+}
+
+
+// c10MassOps: far more in-flight writes of ONE kind than the write queue holds when Close lands -
+// 3000 goroutines, each issuing a single operation that sends exactly one event (a new key, an
+// update of a resident key, or a Delete of a resident key), while maintenance is stalled in a
+// removal listener. After cancellation the maintenance loop still drains a batch or two; only with
+// thousands of parked senders do some remain for certain. Every one of them must return.
+func c10MassOps(r *Run, idx int, kind, op string) {
+	hiWater := maxGoroutineID()
+	lg := &noteLog[int, int64]{}
+	a, err := newAnyCache(kind, anyOpts{MaxSize: 16384, Listener: lg.listener()})
+	if err != nil {
+		r.Broken("build: %v", err)
+		return
+	}
+	const N = 3000
+	for k := 0; k < N+1; k++ {
+		a.set(k, int64(k), 1, 0)
+	}
+	a.wait()
+	gate := make(chan struct{})
+	lg.mu.Lock()
+	lg.gate = gate
+	lg.mu.Unlock()
+	n0 := len(lg.snapshot())
+	_ = a.del(N) // its REMOVED notification blocks maintenance under the policy lock
+	for len(lg.snapshot()) == n0 {
+		time.Sleep(100 * time.Microsecond)
+	}
+	var wg sync.WaitGroup
+	var returned atomic.Int64
+	for i := 0; i < N; i++ {
+		wg.Add(1)
+		go func(i int) {
+			defer wg.Done()
+			defer returned.Add(1)
+			switch op {
+			case "new":
+				a.set(100000+i, 1, 1, 0)
+			case "update":
+				a.set(i, -1, 2, 0)
+			case "delete":
+				_ = a.del(i)
+			}
+		}(i)
+	}
+	st := a.store()
+	// until the queue is full and nobody makes progress any more
+	for last, same := int64(-1), 0; same < 5; {
+		time.Sleep(2 * time.Millisecond)
+		if o := returned.Load(); o == last && st.VerifQueueLen() == st.VerifQueueCap() {
+			same++
+		} else {
+			same, last = 0, o
+		}
+	}
+	parked := int64(N) - returned.Load()
+	r.CountMax("max_one_shot_senders_parked_at_close", parked)
+	closeDone := make(chan struct{})
+	go func() { a.store().Close(); close(closeDone) }()
+	time.Sleep(500 * time.Microsecond)
+	lg.mu.Lock()
+	lg.gate = nil
+	lg.mu.Unlock()
+	close(gate)
+	allDone := make(chan struct{})
+	go func() { wg.Wait(); <-closeDone; close(allDone) }()
+	wit := map[string]any{"kind": kind, "operation": op, "goroutines": N, "parked_when_close_was_called": parked}
+	for evals := 0; evals < 100; evals++ {
+		select {
+		case <-allDone:
+			evals = 1000
+			continue
+		case <-time.After(20 * time.Millisecond):
+		}
+		gs, all := dumpPair(150 * time.Millisecond)
+		alive := false
+		for _, g := range all {
+			if g.ID > hiWater && g.has(").maintenance(") && !g.has(".maintenance.func1") {
+				alive = true
+			}
+		}
+		if alive {
+			continue
+		}
+		stuck := 0
+		where := ""
+		for _, g := range gs {
+			if g.ID <= hiWater || !(g.State == "chan send" || g.State == "select") {
+				continue
+			}
+			top := g.topTheineFrame()
+			for _, f := range c10ClientFrames {
+				if strings.HasSuffix(top, f) {
+					stuck++
+					where = strings.TrimPrefix(top, "(*Store[...]).") + " [" + g.State + "]"
+					break
+				}
+			}
+		}
+		if stuck > 0 {
+			r.Violate("call-never-returns/one-shot-"+op+"/maintenance-gone", fmt.Sprintf("mass scenario %d (%s cache, %d goroutines each issuing one %s, %d parked on the full queue when Close was called): %d of them are parked forever in %s - the maintenance goroutine has exited (two dumps 150 ms apart)", idx, kind, N, op, parked, stuck, where), wit)
+			break
+		}
+	}
+	r.Eval(1)
+	r.Count("mass_scenarios", 1)
+	r.Distinct(fmt.Sprintf("mass/%s/%s", kind, op))
+	if idx < 2 {
+		r.Sample(10, wit)
+	}
 }
 
 func runC10(r *Run) {
@@ -349,9 +471,21 @@ func runC10(r *Run) {
 		for _, w := range []int{1, 4, 32, 256} {
 			for _, stall := range []bool{false, true} {
 				cases = append(cases, c10Case{Kind: kind, Writers: w, Readers: []int{0, 2, 16}[rng.Intn(3)], Stall: stall, CloseAt: 200 + rng.Intn(20000), WaitToo: rng.Intn(3) == 0})
+				if w >= 32 {
+					cases = append(cases, c10Case{Kind: kind, Writers: w, Readers: 0, Stall: stall, CloseAt: 200 + rng.Intn(20000), DelHeavy: true})
+				}
 			}
 		}
 		cases = append(cases, c10Case{Kind: kind, Writers: 0, Readers: 8, CloseAt: 5000})
+	}
+	mi := 0
+	for _, kind := range anyKinds {
+		for _, op := range []string{"new", "update", "delete"} {
+			if mi%r.NShards == r.Shard {
+				c10MassOps(r, mi, kind, op)
+			}
+			mi++
+		}
 	}
 	reps := r.Pick(1, 12)
 	for rep := 0; rep < reps; rep++ {
